@@ -100,7 +100,7 @@ def validMask (rt : RT) : Nat := (if (getS rt 0).valid then 1 else 0) + (if (get
 
 def headOp (rt : RT) : Option COp := rt.client.prog.head?
 /-- `filter.is_stopping = 1` for every valid stream (first loop of `acquire_start`'s error path) -/
-def markFlt (st : Stream) : Stream := if st.valid then { st with fltStopping := true } else st
+def markFlt (st : Stream) : Stream := if st.valid then { st with fltStopping := true, sto := { st.sto with disturbed := true } } else st
 def stopAllFilters (rt : RT) : RT := { rt with streams := rt.streams.map markFlt }
 
 def popOp (rt : RT) : RT := { rt with client := { rt.client with prog := rt.client.prog.tail } }
@@ -215,7 +215,7 @@ def clCfg (s : Nat) : List (Act RT) :=
       upd := fun rt => setPc (modS rt s fun st => { st with sto := { st.sto with state := .armed } }) (.cfgGetShape s),
       out := fun _ => [s!"DRV {stoDev s} set -> armed"] },
     { name := "cl.cfg.shape", guard := fun rt => atPc rt (.cfgGetShape s),
-      upd := fun rt => setPc (modS rt s fun st => { st with maxFrames := rt.client.cfgN.getD s st.maxFrames }) (.cfgAt (s + 1)) }
+      upd := fun rt => setPc (modS rt s fun st => { st with maxFrames := rt.client.cfgN.getD s st.maxFrames, sto := { st.sto with disturbed := true } }) (.cfgAt (s + 1)) }
   ]
 
 /-- `acquire_start`, stream `s` -/
@@ -226,7 +226,7 @@ def clStart (s : Nat) : List (Act RT) :=
     { name := "cl.start.end", guard := fun rt => atPc rt (.startAt s) && (nextValid rt s).isNone,
       upd := fun rt => setPc { rt with state := .running } .next, out := fun _ => ["API start -> ok"] },
     { name := "cl.start.sto", guard := fun rt => atPc rt (.stoStart s),
-      upd := fun rt => setPc (modS rt s fun st => { st with sto := { st.sto with state := .running, run := st.sto.run + 1, nappend := 0, failed := false, log := [], base := st.sinkCh.total, appended := st.sinkCh.total, ncommit := 0, dropped := false, monFresh := st.monReg && decide (st.sinkCh.idx.getD 1 0 = st.sinkCh.total), clean := decide (st.sinkCh.idx.getD 0 0 = st.sinkCh.total) } })
+      upd := fun rt => setPc (modS rt s fun st => { st with sto := { st.sto with state := .running, run := st.sto.run + 1, nappend := 0, failed := false, log := [], base := st.sinkCh.total, appended := st.sinkCh.total, ncommit := 0, dropped := false, disturbed := false, drained := false, monFresh := st.monReg && decide (st.sinkCh.idx.getD 1 0 = st.sinkCh.total), clean := decide (st.sinkCh.idx.getD 0 0 = st.sinkCh.total) } })
                              (.accLock s true 0),
       out := fun rt => [s!"DRV {stoDev s} start run={(getS rt s).sto.run + 1} -> running"] },
     { name := "cl.start.snk", guard := fun rt => atPc rt (.createSnk s),
@@ -269,7 +269,7 @@ def clStop (s : Nat) : List (Act RT) :=
   [
     -- ---- acquire_abort: per valid stream: source.is_stopping = 1; refuse writes; trigger; then acquire_stop ----
     { name := "cl.abort.at", guard := fun rt => atPc rt (.abortAt s) && (nextValid rt s).isSome,
-      upd := fun rt => setPc (modS rt (nv rt s) fun st => { st with srcStopping := true }) (.accLock (nv rt s) false 1) },
+      upd := fun rt => setPc (modS rt (nv rt s) fun st => { st with srcStopping := true, sto := { st.sto with disturbed := true } }) (.accLock (nv rt s) false 1) },
     { name := "cl.abort.end", guard := fun rt => atPc rt (.abortAt s) && (nextValid rt s).isNone, upd := fun rt => setPc rt (.stopAt 0) },
     -- ---- acquire_stop, stream by stream ----
     { name := "cl.stop.at", guard := fun rt => atPc rt (.stopAt s) && (nextValid rt s).isSome, upd := fun rt => setPc rt (.joinSrc (nv rt s)) },
